@@ -16,6 +16,7 @@ META_CLASS = {'meta': ['isEnded', 'isExpired', 'isTimedOut', 'onCooldown', 'shou
 HIST_CLASS = {'hstep': ['mode', 'cfwd', 'op', 'ck', 'st', 'plan', 'status', 'fwd', 'upauth', 'contacted', 'granted', 'pst', 'idtok', 'autologin', 'ignored'],
               'hafter': ['op', 'lstatus', 'deleted', 'status', 'upauth'], 'hstart': ['mode']}
 HIST_CLASS['lockwait'] = ['handler', 'what', 'status', 'contacted', 'upauth', 'exists']
+HIST_CLASS['memlock'] = ['n']
 HIST_CLASS['lease'] = ['handler', 'unlock', 'status', 'lockleft', 'latecmds']
 HIST_CLASS['mixedcfg'] = ['handler', 'idlemin', 'status', 'contacted', 'upauth']
 HIST_NT = {'hstep': lambda f: f.get('ck') != '0', 'hstart': lambda f: False}
@@ -31,8 +32,9 @@ MANAGER_SECTIONS = ['Manager/' + n for n in ('create', 'delete', 'deleteForExter
 HANDLER_SECTIONS = ['Handlers/' + n for n in ('getSession', 'logout', 'logoutLocal', 'logoutCallback', 'logoutFrontChannel', 'sessionInfo', 'sessionRefresh', 'sessionForwardAuth', 'handleGetSessionError', 'loginCallback', 'proxyGetSession', 'proxyHandler', 'getSessionWithValidToken', 'handleAutologin', 'proxyRewrite', 'proxyErrorHandler', 'newUpstreamProxy', 'mwWithAccessToken', 'mwAccessTokenFrom', 'mwWithIdToken', 'mwIdTokenFrom', 'proxyGetSSOServerURL', 'proxyLogin', 'proxyLoginCallback', 'proxyLogout', 'proxyLogoutCallback', 'proxyLogoutFrontChannel', 'proxyLogoutLocal', 'proxySession', 'proxySessionRefresh', 'proxySessionForwardAuth', 'proxyWildcard', 'serverLogout', 'serverLogoutFrontChannel', 'serverLogoutLocal', 'serverWildcard', 'clientLoginCallback', 'issuerIdentification', 'redeemTokens', 'stateMismatchError', 'getCookieOptions', 'login', 'applyLoginRateLimit', 'respondError', 'retryURI', 'newStandaloneRedirect', 'standaloneCanonical', 'standaloneClean', 'standaloneFallback', 'newSSOServerRedirect', 'ssoServerCanonical', 'ssoServerClean', 'newSSOProxyRedirect', 'ssoProxyCanonical', 'ssoProxyClean', 'ssoProxyFallback', 'cleanRedirect', 'redirectQueryParam', 'fallbackRedirect', 'absoluteIsValid', 'relativeIsValid', 'parsableRequestURI', 'isAllowedHost', 'isValidScheme', 'isRelativeURL', 'isValidAbsolutePath', 'isAllowedDomain', 'acrHandlerValidate', 'acrNewHandler', 'matchingIngress', 'matchingPath', 'parseIngress', 'mustScheme', 'clientLogin', 'newAuthorizationCodeParams', 'authCodeURL', 'loginSetCookie', 'authRequestParams', 'authCookie', 'parRequestParams')] + \
     ['pkg/handler/handler.go', 'pkg/handler/handler_sso_proxy.go', 'pkg/handler/handler_sso_server.go', 'pkg/handler/reverseproxy.go', 'pkg/openid/client/login_callback.go', 'pkg/openid/oauth2.go', 'pkg/handler/error.go', 'pkg/url/redirect.go', 'pkg/url/validator.go', 'pkg/handler/acr/acr.go', 'pkg/ingress/ingress.go', 'pkg/openid/client/login.go']
 ENVELOPE_SECTIONS = ['Envelope/' + n for n in ('newCrypter', 'encryptionKeyOrGenerate', 'crypterEncrypt', 'crypterDecrypt', 'cookieEncrypt', 'cookieDecrypt', 'cookieGet', 'cookieGetDecrypted', 'cookieEncryptAndSet', 'cookieSet', 'newTicket', 'ticketCrypter', 'ticketKey', 'ticketSetCookie', 'getTicket', 'encryptedDataDecrypt', 'dataEncrypt', 'dataValidate', 'sessionEncrypt', 'sessionKey', 'sessionSetCookie', 'sessionAccessToken', 'newSession')]
-PROVIDER_SECTIONS = ['Provider/' + n for n in ('newTokens', 'parseIDToken', 'idTokenValidate', 'idTokenClaim', 'idTokenStringClaim', 'idTokenSid', 'idTokenAcr', 'authCodeGrant', 'refreshGrant', 'clientAuthenticationParams', 'makeAssertion', 'oauthPostRequest', 'newLogout', 'singleLogoutURL', 'logoutSetCookie', 'newLogoutCallback', 'postLogoutRedirectURI', 'logoutStateMismatchError', 'newLogoutFrontchannel', 'frontchannelSid', 'frontchannelMissingSid')]
+PROVIDER_SECTIONS = ['Provider/' + n for n in ('newTokens', 'parseIDToken', 'idTokenValidate', 'idTokenClaim', 'idTokenStringClaim', 'idTokenSid', 'idTokenAcr', 'authCodeGrant', 'refreshGrant', 'clientAuthenticationParams', 'makeAssertion', 'oauthPostRequest', 'newLogout', 'singleLogoutURL', 'logoutSetCookie', 'newLogoutCallback', 'postLogoutRedirectURI', 'logoutStateMismatchError', 'newLogoutFrontchannel', 'frontchannelSid', 'frontchannelMissingSid', 'jwksGet', 'jwksRefresh', 'newJwksProvider', 'keySetMutator', 'ingressMiddleware', 'autologinNew', 'sidClaimRequired', 'sessionStateRequired', 'issParameterSupported', 'providerIssuer', 'providerJwksURI', 'providerTokenEndpoint', 'supportedContains', 'trustedAudiences', 'clientAudiences', 'clientClientID')]
 STARTUP_SECTIONS = ['Startup/' + n for n in ('mainRun', 'mainStandalone', 'mainSsoServer', 'mainSsoProxy', 'configValidate', 'validateUpstream', 'cookieCfgValidate', 'sameSiteValidate', 'ssoValidate', 'openidCfgValidate', 'providerValidate', 'providerValidateAcr', 'providerValidateLocale', 'providerValidateAlg', 'newClientConfig', 'newOpenidConfig', 'newProviderConfig', 'parseIngresses', 'newStore', 'configInitialize', 'newStandalone', 'newSSOProxy', 'newSSOServer', 'newManager', 'newReader')]
+HELPER_SECTIONS = ['Helpers/' + n for n in ('paramsWith', 'paramsAuthCodeOptions', 'paramsURLValues', 'exchangeParams', 'refreshGrantParams', 'clientAuthSecretParams', 'clientAuthJwtBearerParams', 'getLoginCookie', 'getLogoutCookie', 'externalID', 'getSessionStateFrom', 'managerKey', 'lockKey', 'newRedisLock', 'memoryRead', 'memoryWrite', 'memoryDelete', 'memoryLockAcquire', 'memoryLockRelease', 'urlLoginCallback', 'urlLogoutCallback', 'makeCallbackURL', 'urlMatchingIngress', 'urlMatchingPath', 'urlLoginRelative', 'getRetryAttempts', 'defaultErrorResponse', 'standaloneWildcard', 'handlerGetPath', 'removeMiddlewareHeaders', 'disallowNonNavigational', 'generateBase64', 'generateBytes', 'configureCookieNames', 'setLegacyCookie', 'clearLegacyCookies')]
 HANDLER_TIE = (" Every control-flow path through the real logout / session / reverse-proxy handlers is enumerated from a statement-by-statement translation regenerated on each run (Gen/Handlers) and "
                "the kernel decides, over ALL paths, what the handler model assumes (Proofs/GenTie/Handlers): success answers only after the lookup-error guard and the delete, cookies cleared with the request's options first, "
                "the upstream token set only when the validated lookup and the ACR gate passed, and always then.")
@@ -70,8 +72,8 @@ PROPS = {
         'assumptions': ["H-AEAD", "H-CLOCK"],
     },
     'C02': {
-        'proofs': ['Ww.Proofs.C02', 'Ww.Proofs.GenTie.Handlers', 'Ww.Proofs.GenTie.C02'],
-        'gen_sections': HANDLER_SECTIONS + [],
+        'proofs': ['Ww.Proofs.C02', 'Ww.Proofs.GenTie.Handlers', 'Ww.Proofs.GenTie.C02', 'Ww.Proofs.GenTie.HelpersAuth', 'Ww.Proofs.GenTie.ProviderCfg'],
+        'gen_sections': HANDLER_SECTIONS + [] + HELPER_SECTIONS + PROVIDER_SECTIONS,
         'drivers': [{'name': 'c02'}],
         'reasons': ['C02.'],
         'class_fields': {},
@@ -88,7 +90,7 @@ PROPS = {
         'assumptions': ["H-AEAD"],
     },
     'C03': {
-        'proofs': ['Ww.Proofs.C03', 'Ww.Proofs.GenTie.C03', 'Ww.Proofs.GenTie.C02', 'Ww.Proofs.GenTie.Tokens'],
+        'proofs': ['Ww.Proofs.C03', 'Ww.Proofs.GenTie.C03', 'Ww.Proofs.GenTie.C02', 'Ww.Proofs.GenTie.Tokens', 'Ww.Proofs.GenTie.Jwks', 'Ww.Proofs.GenTie.ProviderCfg'],
         'gen_sections': HANDLER_SECTIONS + ['Dec/acrValidate', 'pkg/openid/acr/acr.go'] + PROVIDER_SECTIONS,
         'drivers': [{'name': 'c03'}],
         'reasons': ['C03.'],
@@ -108,8 +110,8 @@ PROPS = {
         'assumptions': ["H-JWS"],
     },
     'C05': {
-        'proofs': ['Ww.Proofs.C05', 'Ww.Proofs.GenTie.C07', 'Ww.Proofs.GenTie.Handlers', 'Ww.Proofs.GenTie.LogoutSrc'],
-        'gen_sections': HANDLER_SECTIONS + MANAGER_SECTIONS + PROVIDER_SECTIONS,
+        'proofs': ['Ww.Proofs.C05', 'Ww.Proofs.GenTie.C07', 'Ww.Proofs.GenTie.Handlers', 'Ww.Proofs.GenTie.LogoutSrc', 'Ww.Proofs.GenTie.HelpersSession'],
+        'gen_sections': HANDLER_SECTIONS + MANAGER_SECTIONS + PROVIDER_SECTIONS + HELPER_SECTIONS,
         'drivers': [{'name': 'sched'}, {'name': 'hist'}, {'name': 'cook'}, {'name': 'lockwait'}],
         'reasons': ['C05.'],
         'class_fields': _merge(HIST_CLASS, {'sched': ['store', 'procs', 'crash', 'trace', 'statuses', 'exists'], 'jar': ['after', 'status', 'names', 'sso'], 'setcookie': ['op', 'class', 'clear', 'path', 'domain']}),
@@ -126,9 +128,9 @@ PROPS = {
         'assumptions': ["store commands are atomic steps"],
     },
     'C07': {
-        'proofs': ['Ww.Proofs.C07', 'Ww.Proofs.GenTie.C07', 'Ww.Proofs.GenTie.Grant'],
-        'gen_sections': MANAGER_SECTIONS + PROVIDER_SECTIONS,
-        'drivers': [{'name': 'sched'}, {'name': 'fault', 'timeout': 1500}, {'name': 'hist'}],
+        'proofs': ['Ww.Proofs.C07', 'Ww.Proofs.GenTie.C07', 'Ww.Proofs.GenTie.Grant', 'Ww.Proofs.GenTie.HelpersAuth', 'Ww.Proofs.GenTie.HelpersSession', 'Ww.Proofs.MemLock'],
+        'gen_sections': MANAGER_SECTIONS + PROVIDER_SECTIONS + HELPER_SECTIONS,
+        'drivers': [{'name': 'sched'}, {'name': 'fault', 'timeout': 1500}, {'name': 'hist'}, {'name': 'memlock'}],
         'reasons': ['C07.'],
         'class_fields': _merge(HIST_CLASS, {'sched': ['store', 'procs', 'crash', 'trace', 'statuses', 'exists'], 'fault': ['handler', 'prestate', 'fpos', 'fkind', 'fcount', 'status', 'contacted'], 'faultdry': ['handler', 'prestate']}),
         'nontrivial': _merge(HIST_NT, {'sched': lambda f: ',' in f.get('schedule', ''), 'fault': lambda f: f.get('fkind', '').startswith('idp'), 'faultdry': lambda f: False}),
@@ -137,23 +139,25 @@ PROPS = {
                       "hence every presentation is a grant, the presented generations are strictly increasing - no refresh token is presented twice - and the stored pair is the provider's current pair whenever nobody is in the critical section; at most one grant per schedule (one_refresh) and, by a range invariant over every token generation "
                       "in the state, every proxied request hands the upstream the previous or the new token and nothing else (served_previous_or_new), new logins on the same key included. "
                       "Within the lock lease and crash-free (the property's proviso). Tied step by step on Redis; on the in-memory store the provider log and the statuses are checked by the Spec (the provider call is its only scheduling point)." + MANAGER_TIE +
-                      " Client.RefreshGrant and the back-channel POST are translated on every run (Gen/Provider): a refresh answer is accepted on one path only (authenticated POST of the caller's refresh token to the token endpoint, body parsed, access token present); 4xx is a client error, 5xx a server error, a body is handed on only from a non-error answer.",
+                      " Client.RefreshGrant and the back-channel POST are translated on every run (Gen/Provider): a refresh answer is accepted on one path only (authenticated POST of the caller's refresh token to the token endpoint, body parsed, access token present); 4xx is a client error, 5xx a server error, a body is handed on only from a non-error answer." +
+                      " The in-memory lock is modelled (Model/MemLock) and proved exclusive over every reachable state, obtainable at once after its lease ran out and released only by its holder; its Go statements are regenerated and compared with the model's shape, and random acquire/release histories of the real lock are replayed on the model (memlock driver).",
         'level_note': "Trusted: Lean kernel; redislock obtain/release = SET NX PX / delete-if-token (modelled as one step each, tied by the executor); lease not expiring while held (H-LEASE); the cooldown outlasts a schedule (schedules run in milliseconds).",
         'technique': 'Lean 4 inductive invariant (grind) over an interleaving model + deterministic schedule executor; provider-side presentation log as observation',
         'trusted': ["H-LEASE", "redislock contract"],
         'assumptions': ["H-LEASE"],
     },
     'C10': {
-        'proofs': ['Ww.Proofs.C10', 'Ww.Proofs.GenTie.C07'],
-        'gen_sections': ['Consts'] + MANAGER_SECTIONS,
-        'drivers': [{'name': 'sched'}, {'name': 'hist'}, {'name': 'lease'}],
+        'proofs': ['Ww.Proofs.C10', 'Ww.Proofs.GenTie.C07', 'Ww.Proofs.GenTie.HelpersSession', 'Ww.Proofs.MemLock'],
+        'gen_sections': ['Consts'] + MANAGER_SECTIONS + HELPER_SECTIONS,
+        'drivers': [{'name': 'sched'}, {'name': 'hist'}, {'name': 'lease'}, {'name': 'memlock'}],
         'reasons': ['C10.'],
         'class_fields': _merge(HIST_CLASS, {'sched': ['store', 'procs', 'crash', 'trace', 'statuses', 'exists']}),
         'nontrivial': _merge(HIST_NT, {'sched': lambda f: True}),
         'rule': SCHED_RULE + " Crash cases kill the refreshing / logging-out process at each of its steps, let the other process run, let the lock lease pass (FastForward) and read TTLs, lock key and the session endpoint. hist driver: TTL after every step of every history.",
         'level_text': "Proof: TTL invariant over the small-step model with crash events at arbitrary points (an update never drops the expiry and never creates a key); a finishing refresh removes its lock; a crashed holder blocks others only until "
                       "the lease passes, after which the next process obtains the lock; a session left stale by a crash between the provider's answer and the write-back is rejected cleanly (401, nothing written, lock released). "
-                      "TTL values (<= creation + max lifetime, never extended) are checked on the implementation after every step of every history and schedule." + MANAGER_TIE,
+                      "TTL values (<= creation + max lifetime, never extended) are checked on the implementation after every step of every history and schedule." + MANAGER_TIE +
+                      " The in-memory lock is modelled (Model/MemLock) and proved exclusive over every reachable state, obtainable at once after its lease ran out and released only by its holder; its Go statements are regenerated and compared with the model's shape, and random acquire/release histories of the real lock are replayed on the model (memlock driver).",
         'level_note': "Trusted: Lean kernel; Redis expiry semantics via miniredis (SET XX KEEPTTL, PX leases, FastForward); crash = the process's connection goes dead at a store-command boundary.",
         'technique': 'Lean 4 invariant with crash events + crash-point enumeration on real replicas (TTL / lock key / follow-up request)',
         'trusted': ["Redis/miniredis expiry semantics"],
@@ -195,8 +199,8 @@ PROPS = {
         'assumptions': ["faults occur at store-command / provider-call boundaries"],
     },
     'C12': {
-        'proofs': ['Ww.Proofs.C12', 'Ww.Proofs.GenTie.C12', 'Ww.Proofs.GenTie.Handlers'],
-        'gen_sections': HANDLER_SECTIONS + ['Dec/needsLogin', 'pkg/handler/autologin/autologin.go'],
+        'proofs': ['Ww.Proofs.C12', 'Ww.Proofs.GenTie.C12', 'Ww.Proofs.GenTie.Handlers', 'Ww.Proofs.GenTie.MiddlewareSrc'],
+        'gen_sections': HANDLER_SECTIONS + ['Dec/needsLogin', 'pkg/handler/autologin/autologin.go'] + PROVIDER_SECTIONS,
         'drivers': [{'name': 'c12'}],
         'reasons': ['C12.'],
         'class_fields': {'glob': ['dm'], 'needslogin': ['nl'], 'alog': ['method', 'nav', 'authed', 'status', 'fwd', 'hasloc', 'prefix']},
@@ -214,8 +218,8 @@ PROPS = {
         'assumptions': ["patterns over {literal, *, **, /}"],
     },
     'C13': {
-        'proofs': ['Ww.Proofs.C13', 'Ww.Proofs.GenTie.C13', 'Ww.Proofs.GenTie.Login', 'Ww.Proofs.GenTie.Ingress', 'Ww.Proofs.GenTie.Authz'],
-        'gen_sections': HANDLER_SECTIONS + ['Dec/getAcrParam', 'Dec/getLocaleParam', 'Dec/getPromptParam', 'pkg/openid/client/login.go', 'pkg/openid/acr/acr.go'],
+        'proofs': ['Ww.Proofs.C13', 'Ww.Proofs.GenTie.C13', 'Ww.Proofs.GenTie.Login', 'Ww.Proofs.GenTie.Ingress', 'Ww.Proofs.GenTie.Authz', 'Ww.Proofs.GenTie.HelpersAuth'],
+        'gen_sections': HANDLER_SECTIONS + ['Dec/getAcrParam', 'Dec/getLocaleParam', 'Dec/getPromptParam', 'pkg/openid/client/login.go', 'pkg/openid/acr/acr.go'] + HELPER_SECTIONS,
         'drivers': [{'name': 'c13'}],
         'reasons': ['C13.'],
         'class_fields': {'login13': ['variant', 'ep', 'status', 'hascookie', 'parcalled', 'p_acr', 'p_locale', 'p_prompt', 'p_redirect'], 'fresh13': ['dups']},
@@ -232,8 +236,8 @@ PROPS = {
         'assumptions': ["H-RND"],
     },
     'C14': {
-        'proofs': ['Ww.Proofs.C14', 'Ww.Proofs.GenTie.C14', 'Ww.Proofs.GenTie.Handlers', 'Ww.Proofs.GenTie.Login'],
-        'gen_sections': HANDLER_SECTIONS + ['Cookies', 'Dec/cookieMake', 'Dec/cookieClear', 'pkg/cookie/cookie.go'],
+        'proofs': ['Ww.Proofs.C14', 'Ww.Proofs.GenTie.C14', 'Ww.Proofs.GenTie.Handlers', 'Ww.Proofs.GenTie.Login', 'Ww.Proofs.GenTie.HelpersWeb'],
+        'gen_sections': HANDLER_SECTIONS + ['Cookies', 'Dec/cookieMake', 'Dec/cookieClear', 'pkg/cookie/cookie.go'] + HELPER_SECTIONS,
         'drivers': [{'name': 'cook'}],
         'reasons': ['C14.'],
         'class_fields': {'setcookie': ['sso', 'cfgsecure', 'cfgsamesite', 'op', 'class', 'clear', 'domain', 'path', 'secure', 'samesite'], 'jar': ['after', 'status', 'names', 'sso'], 'cookieval14': ['secure', 'samesite', 'hostnames', 'schemes', 'accepted'],
@@ -250,8 +254,8 @@ PROPS = {
         'assumptions': ["H-BROWSER"],
     },
     'C17': {
-        'proofs': ['Ww.Proofs.C17', 'Ww.Proofs.GenTie.C17', 'Ww.Proofs.GenTie.Handlers', 'Ww.Proofs.GenTie.Login'],
-        'gen_sections': HANDLER_SECTIONS + ['Consts', 'Dec/retryCondition', 'Dec/nextRetryValue', 'pkg/handler/error.go'],
+        'proofs': ['Ww.Proofs.C17', 'Ww.Proofs.GenTie.C17', 'Ww.Proofs.GenTie.Handlers', 'Ww.Proofs.GenTie.Login', 'Ww.Proofs.GenTie.HelpersWeb'],
+        'gen_sections': HANDLER_SECTIONS + ['Consts', 'Dec/retryCondition', 'Dec/nextRetryValue', 'pkg/handler/error.go'] + HELPER_SECTIONS,
         'drivers': [{'name': 'cook'}],
         'reasons': ['C17.'],
         'class_fields': {'setcookie': ['op', 'class', 'clear'], 'jar': ['after'], 'retrychain': ['cause', 'statuses', 'sso', 'gap'], 'retryreset': ['via', 'before', 'after'],
@@ -268,8 +272,8 @@ PROPS = {
         'assumptions': ["H-BROWSER"],
     },
     'C15': {
-        'proofs': ['Ww.Proofs.C15', 'Ww.Proofs.GenTie.C15', 'Ww.Proofs.GenTie.Login'],
-        'gen_sections': HANDLER_SECTIONS + ['Routes', 'pkg/router/router.go', 'pkg/router/paths/paths.go', 'Dec/isNavigationRequest', 'Dec/hasSecFetchMetadata', 'internal/http/request.go'],
+        'proofs': ['Ww.Proofs.C15', 'Ww.Proofs.GenTie.C15', 'Ww.Proofs.GenTie.Login', 'Ww.Proofs.GenTie.MiddlewareSrc', 'Ww.Proofs.GenTie.HelpersWeb'],
+        'gen_sections': HANDLER_SECTIONS + ['Routes', 'pkg/router/router.go', 'pkg/router/paths/paths.go', 'Dec/isNavigationRequest', 'Dec/hasSecFetchMetadata', 'internal/http/request.go'] + PROVIDER_SECTIONS + HELPER_SECTIONS,
         'drivers': [{'name': 'c15'}, {'name': 'hist'}],
         'reasons': ['C15.'],
         'class_fields': _merge(HIST_CLASS, {'route': ['sso', 'idporten', 'method', 'impl', 'nocache'], 'guard': ['ep', 'method', 'mode', 'dest', 'status'], 'errpage': ['ep', 'status']}),
@@ -342,8 +346,8 @@ PROPS = {
         'assumptions': ["classification of identifiers is trusted"],
     },
     'C20': {
-        'proofs': ['Ww.Proofs.C20', 'Ww.Proofs.GenTie.Ingress', 'Ww.Proofs.GenTie.Startup', 'Ww.Proofs.GenTie.C09'],
-        'gen_sections': HANDLER_SECTIONS + STARTUP_SECTIONS + ENVELOPE_SECTIONS,
+        'proofs': ['Ww.Proofs.C20', 'Ww.Proofs.GenTie.Ingress', 'Ww.Proofs.GenTie.Startup', 'Ww.Proofs.GenTie.C09', 'Ww.Proofs.GenTie.Jwks'],
+        'gen_sections': HANDLER_SECTIONS + STARTUP_SECTIONS + ENVELOPE_SECTIONS + PROVIDER_SECTIONS,
         'drivers': [{'name': 'c20'}],
         'reasons': ['C20.'],
         'class_fields': {'start20': ['key', 'ingress', 'clientid', 'jwk', 'secret', 'wellknown', 'mode', 'redis', 'cookiename', 'serverurl', 'domain', 'defaulturl', 'secure', 'samesite', 'upstream', 'shutdown', 'alg', 'acr', 'locale', 'disco', 'listening'],
@@ -402,8 +406,8 @@ PROPS = {
         'assumptions': ["H-AEAD", "H-RND"],
     },
     'C04': {
-        'proofs': ['Ww.Proofs.C04Lemmas', 'Ww.Proofs.C04', 'Ww.Proofs.C04Abs', 'Ww.Proofs.GenTie.Login', 'Ww.Proofs.GenTie.C04', 'Ww.Proofs.GenTie.LogoutSrc'],
-        'gen_sections': HANDLER_SECTIONS + [] + PROVIDER_SECTIONS,
+        'proofs': ['Ww.Proofs.C04Lemmas', 'Ww.Proofs.C04', 'Ww.Proofs.C04Abs', 'Ww.Proofs.GenTie.Login', 'Ww.Proofs.GenTie.C04', 'Ww.Proofs.GenTie.LogoutSrc', 'Ww.Proofs.GenTie.HelpersWeb'],
+        'gen_sections': HANDLER_SECTIONS + [] + PROVIDER_SECTIONS + HELPER_SECTIONS,
         'drivers': [{'name': 'c04', 'timeout': 6000}],
         'reasons': ['C04.'],
         'class_fields': {'url04': ['ok', 'rok'], 'valid04': ['rel', 'abs', 'regex'], 'canon04': ['mode'], 'redir04': [], 'esc04': ['pathunescok', 'queryunescok'], 'whatwg04': ['expect'],
